@@ -283,7 +283,7 @@ def find_matching(s: str, i: int, open_c="(", close_c=")") -> int:
     raise Undecided("unbalanced marker")
 
 
-def splice_body(body: str, spec: FnSpec, n_loops: int, key: str) -> str:
+def splice_body(body: str, spec: FnSpec, n_loops: int, key: str, diverge_spec="ensures false") -> str:
     # loops
     for k in range(n_loops):
         inv = spec.loops.get(k, "") if spec else ""
@@ -309,7 +309,7 @@ def splice_body(body: str, spec: FnSpec, n_loops: int, key: str) -> str:
         k = int(m.group(3))
         txt = (spec.closures.get(k) if spec else None)
         if txt is None:
-            txt = "ensures false" if m.group(2) == "diverge" else ""
+            txt = diverge_spec if m.group(2) == "diverge" else ""
         return f"{m.group(1)} {txt.strip()} {{" if txt.strip() else f"{m.group(1)} {{"
     body = re.sub(r"(\|[^|]*\|)\s*\{\s*__vx_(diverge|closure)!\((\d+)\);", clos, body)
     if "__vx_" in body:
@@ -520,11 +520,13 @@ def assemble(unit: dict, scratch: str, passname="A") -> Assembled:
         # declaration of a source trait whose impls are emitted as trait impls (signatures only, from the source)
         for t in tr["traits"]:
             if t["trait"] == tname:
-                sup = (": " + " + ".join(t["supertraits"])) if t["supertraits"] else ""
+                sups = t["supertraits"] + unit.get("trait_supers", {}).get(tname, [])   # spec-only helper supertraits
+                sup = (": " + " + ".join(sups)) if sups else ""
                 emit(f"pub trait {tname}{sup} {{")
                 for m in t["methods"]:
                     ps = ", ".join(p["ty"] if p["name"] == "self" else f"{p['name']}: {p['ty']}" for p in m["params"])
-                    emit(f"    fn {m['name']}({ps})" + (f" -> {m['ret']}" if m["ret"] else "") + ";")
+                    treq = unit.get("trait_requires", {}).get(f"{tname}::{m['name']}")   # trait-level precondition (ghost)
+                    emit(f"    fn {m['name']}({ps})" + (f" -> {m['ret']}" if m["ret"] else "") + (f"\n        requires {treq}" if treq else "") + ";")
                 emit("}")
     for g in order:
         pending_canaries = []
@@ -535,7 +537,7 @@ def assemble(unit: dict, scratch: str, passname="A") -> Assembled:
         for f in groups[g]:
             key = f["key"]
             sp = specs.get(key)
-            body = splice_body(f["body"], sp, f["n_loops"], key)
+            body = splice_body(f["body"], sp, f["n_loops"], key, unit.get("diverge_spec", "ensures false"))
             bc = (sp.opts.get("broadcast") if sp else None) or ",".join(unit.get("broadcast", []))
             if bc and bc != "none":
                 i = body.index("{")
@@ -580,9 +582,16 @@ def assemble(unit: dict, scratch: str, passname="A") -> Assembled:
             emit("}")
         if pending_canaries:
             ct = f"{g[3]}__canary_{re.sub(r'[^A-Za-z0-9]', '_', g[2])}"
-            emit(f"pub trait {ct}: Sized {{")
+            emit(f"pub trait {ct}: " + " + ".join(["Sized"] + unit.get("trait_supers", {}).get(g[3], [])) + " {")
             for (key, f, ctext) in pending_canaries:
-                emit("    " + fn_header(f, name_override=f["name"] + "__canary").replace("pub fn", "fn").replace("-> (r: ", "-> (").rstrip() + ";")
+                treq = unit.get("trait_requires", {}).get(f"{g[3]}::{f['name']}")   # same trait-level precondition as the real method
+                decl = fn_header(f, name_override=f["name"] + "__canary").replace("pub fn", "fn").replace("-> (r: ", "-> (").rstrip()
+                for t_ in tr["traits"]:
+                    for m_ in t_["methods"]:
+                        if t_["trait"] == g[3] and m_["name"] == f["name"]:   # the source trait's own signature (Self-typed)
+                            ps_ = ", ".join(p_["ty"] if p_["name"] == "self" else f"{p_['name']}: {p_['ty']}" for p_ in m_["params"])
+                            decl = f"fn {f['name']}__canary({ps_})" + (f" -> {m_['ret']}" if m_["ret"] else "")
+                emit("    " + decl + (f"\n        requires {treq}" if treq else "") + ";")
             emit("}")
             emit(f"impl{g[1]} {ct} for {g[2]} {{")
             for (key, f, ctext) in pending_canaries:
@@ -664,6 +673,8 @@ def parse_diagnostics(stderr: str):
         if last_src is not None and re.match(r"^\s*\|\s*[\^\-_|]", l):
             # underline for last_src, maybe with label text
             cur["marked"].append((last_src, l.strip()))
+            if "in this macro invocation" in l:
+                cur["line"] = last_src     # an obligation inside `panic_with_error!` belongs to the function that invokes the macro
     return diags
 
 
